@@ -57,12 +57,14 @@ type Name string
 type Box interface {
 	Get() string
 	Put(s string)
+	peek() string
 }
 
 type BoxA struct{ v string }
 
 func (b *BoxA) Get() string  { return b.v }
 func (b *BoxA) Put(s string) { b.v = s }
+func (b *BoxA) peek() string { return b.v }
 
 type BoxB struct{ l []string }
 
@@ -73,11 +75,24 @@ func (b *BoxB) Get() string {
 	return ""
 }
 func (b *BoxB) Put(s string) { b.l = append(b.l, s) }
+func (b *BoxB) peek() string { return b.Get() }
 
 type BoxC struct{ p *string }
 
 func (b BoxC) Get() string  { return *b.p }
 func (b BoxC) Put(s string) { *b.p = s }
+func (b BoxC) peek() string { return *b.p }
+
+type BoxD struct {
+	f func(string) string
+	v string
+}
+
+func (b BoxD) Get() string  { return b.f(b.v) }
+func (b BoxD) Put(s string) { sinkhole = b.f(s) }
+func (b BoxD) peek() string { return b.f(b.v) }
+
+var sinkhole string
 
 func (s *S) GetA() string   { return s.A }
 func (s *S) SetA(x string)  { s.A = x }
@@ -181,8 +196,8 @@ type gen struct {
 	directSrc    map[string]int // variable -> source line it directly received
 	nlabel       int
 	closureDepth int
-	nenter int
-	nprobe int
+	nenter       int
+	nprobe       int
 }
 
 func (g *gen) emit(format string, a ...any) int {
